@@ -249,3 +249,20 @@ PROPS["C07"] = {
     "note": "Exhaustive behaviour over all 2^13 / 2^11 flag words and text->value round trips are execution/solver territory and not "
             "decided; the converters' ValueError discipline is rule C02-R4.",
 }
+
+SOURCE_COMMITS.append("6192fa4")  # fix: a question gives up at end of input (C18)
+
+PROPS["C18"] = {
+    "claimed": True,
+    "technique": "static analysis: exception-flow through the call graph into retry loops (handler coverage x loop boundedness), reaching-definition provenance of returned choices, guard dominance of reads/writes by the interactive test, per-iteration multiplicity of the attempt decrement",
+    "text": (
+        "Decides: (R1) no handler that covers the end-of-input abort (the raise under 'not <value read>') sits in a loop with an unbounded "
+        "condition around a call that reaches that raise through the call graph (closures and callable attributes resolved), so end of "
+        "input leaves every retry loop; (R2) every definition reaching the value appended to a choice question's result is "
+        "self._values[...] - the False sentinel is excluded by a dominating raise; (R3) in Question.ask every call that reaches an IO "
+        "read or write is dominated by the true edge of the interactive test and the other edge returns the default; (R4) every path "
+        "from a failed attempt back to the loop test passes exactly one decrement of the budget (or the 'unlimited' edge), one error "
+        "line is written per retry, and an exhausted budget raises."
+    ),
+    "note": "Index/value interchangeability, confirmation pattern semantics and the exact error texts are value-level and not decided.",
+}
